@@ -8,21 +8,23 @@ ID = 'C04'
 LEAN_MODULES = ['PybtexModel.Props.C04']
 THEOREMS = {
     'C04_char_classes': 'the character classes of model and rule are the interpreter\'s str.isalpha/isupper/islower tables (regenerated); kernel-checked facts the rule relies on: upper and lower case are disjoint, below U+0080 the classes are the ASCII ones, white space / braces / backslash / comma / tie / hyphen / digits are in no class, a first character that is a letter or cased is an ordinary brace-level-0 character, and the first-character clause of the rule matters only for a cased first character that is not a letter',
-    'C04_matches_spec': 'the model of Person._parse_string equals the BibTeX rule (Spec.split) for EVERY non-empty string (no hypothesis)',
-    'C04_matches_rule_any': 'a successful parse is the rule\'s split with "is_von_name answers yes" as the lower-case test (the tie to is_von_name itself)',
-    'C04_case_of_token': "each token's case is decided by its first brace-level-0 letter or special character (a cased first character decides at once; a letter without case makes the token caseless): is_von_name = Spec.isLow on EVERY non-empty token",
+    'C04_matches_spec': 'the model of Person._parse_string equals the rule Spec.split for EVERY non-empty string (no hypothesis) - RELATIVE to the shared C12 models: tokens = splitTex (split_tex_string), brace level / special character = the scanner scan; characterised separately by C12_split_* / C12_scan_*, the case rule scanner-free by C04_case_bibtex_partial / _neg',
+    'C04_matches_rule_any': "[lemma-level tie, subsumed by C04_matches_spec] a successful parse is splitWith (Lemmas/Names.lean, not a Spec definition) with the MODEL's is_von_name as the lower-case test",
+    'C04_case_of_token': "is_von_name = Spec.isLow on EVERY non-empty token: a cased first character decides at once, else the first brace-level-0 letter (one without case: caseless) or special character - brace level and special character being those of the shared scanner scan (Spec.tokCaseOf mirrors the model's loop); scanner-free rule: C04_case_bibtex_partial / _neg",
+    'C04_case_bibtex_partial': 'the case rule WITHOUT the scanner (bibtex.web 397-401 as one pass with a brace counter: Spec.tokenCaseBibtex): is_von_name answers by it on every non-empty token that starts with a cased character, or nests <= 100 levels and has no backslash at brace level 1 of an ORDINARY group before its case is decided (Spec.plainGroups)',
+    'C04_case_bibtex_neg': 'witness (kernel evaluation) that the proviso cannot be dropped: in {x\\y}von bibtex.web skips the ordinary group {x\\y} and v makes the token lower-case (von); pybtex\'s scanner hands the inner backslash out as a level-1 token that is_von_name takes for a special character: no case - Person("Jean {x\\y}von Last") has no von part, Person("Jean {xy}von Last") has',
     'C04_overnested_case': 'a token nesting braces deeper than the scanner follows them (> 100 levels) has the case of its first character (upper / lower / none) in the rule, and is_von_name answers accordingly instead of raising (repair C04-1)',
     'C04_builtin_special_chars': 'a special character whose control sequence is one of BibTeX\'s built-in foreign characters has the case of the table (\\i \\j \\oe \\ae \\aa \\o \\l \\ss lower; \\OE \\AE \\AA \\O \\L upper) whatever follows, in the rule and in special_char_islower (repair C04-2)',
     'C04_total': 'parsing succeeds for EVERY non-empty string (no IndexError / ValueError / too many nested braces), reporting too many commas exactly when there are more than three comma parts',
     'C04_total_person': 'Person(string, first, middle, prelast, last, lineage) succeeds for ANY six strings; too many commas is reported exactly when the stripped string has more than three comma parts',
     'C04_tokens_nonempty': 'tokens of the tokeniser are never empty and a non-empty string has at least one comma part (why string[0] and the ValueError branch are unreachable)',
-    'C04_tokens_preserved': 'no token is lost, duplicated or reordered: first++middle++prelast++last = tokens(s) without commas; prelast++last / lineage / first++middle = tokens of the first / second / last comma part (extra parts joined by blanks); first_names is the first token of First',
+    'C04_tokens_preserved': 'no token is lost, duplicated or reordered, RELATIVE to the model tokeniser splitTex (C12; not proved equal to the one-pass Spec.nameTokens): first++middle++prelast++last = tokens(s) without commas; prelast++last / lineage / first++middle = tokens of the first / second / last comma part (extra parts joined by blanks); first_names is the first token of First',
     'C04_von_longest': 'the von part is the longest run ending in a lower-case token that still leaves a last name: boundary = Spec.vonLast, no lower-case token left in last[:-1], von ends lower-case, last non-empty, a lower-case token before the final one forces von (every string)',
     'C04_case_rule': 'First von Last form: no token of First is lower-case, von (when present) starts with the first lower-case token, a lower-case token before the final token forces a von part (every string)',
     'C04_person_matches_spec': 'the constructor as a whole, for ANY six arguments: Person(string, first, middle, prelast, last, lineage) = the rule\'s split of the stripped string (nothing for a blank string) with the tokens of each explicit part appended, too many commas as the rule says (what the oracle clauses matches_bibtex / parts_same_tokenisation evaluate)',
     'C04_parts_same_tokenisation': 'explicit part arguments are tokenised by the same tokeniser and appended to the parts parsed from the string',
-    'C04_braces_atomic': 'every returned token is a non-empty token of the tokeniser applied to the name, one of its first two comma parts or the blank-joined rest (so that C12\'s tokeniser theorems apply to every name part)',
-    'C04_groups_never_split': 'braced groups are never split: for a name with balanced braces every returned token is brace-balanced (no group is cut by a token boundary or by a comma) in all comma forms incl. too many commas; likewise the tokens of a balanced explicit part (from C12_split_braces; stripping and blank-joining keep the balance)',
+    'C04_braces_atomic': "every returned token is a non-empty token of the MODEL tokeniser splitTex applied to the name, one of its first two comma parts or the blank-joined rest (so that C12's tokeniser theorems apply to every name part)",
+    'C04_groups_never_split': 'braced groups are never split, ONLY for a name with balanced braces (the property states it without that proviso; unbalanced: ASSUMPTIONS): every returned token is brace-balanced in all comma forms incl. too many commas; likewise the tokens of a balanced explicit part (from C12_split_braces; stripping and blank-joining keep the balance)',
 }
 RULE = ('all token shapes up to the tier token count over the ASCII token classes {Capitalised, lowercase, braced, special-char upper, '
         'special-char lower, caseless, hyphenated, tie-joined, built-in foreign character lower ({\\ae}b) / upper ({\\O}x)} and the non-ASCII '
@@ -43,7 +45,10 @@ TRUSTED = ['character classes: str.isalpha / str.isupper / str.islower of the ru
            'range tables (harness/tablegen/unicode.py -> Gen/Unicode.lean) on every run',
            'tokenisation in the theorems is the C12 model of split_tex_string (splitTex); the oracle compares the tokens with the '
            'independent one-pass tokeniser Spec.nameTokens / Spec.nameCommaParts (stated from the property text) on every case whose brace '
-           'groups are all closed; splitTex = Spec.nameTokens is checked on those cases, not proved']
+           'groups are all closed; splitTex = Spec.nameTokens is checked on those cases, not proved',
+           'the case rule Spec.tokenCase sits on the shared scanner scan (C12 model of scan_bibtex_string): Spec.tokCaseOf / Spec.specialCase mirror the model\'s '
+           'vonScan / specialCharIsLower over the scanner\'s tokens, incl. scan = none => caseless (pybtex\'s 100-level limit, not BibTeX\'s); the scanner is '
+           'characterised in C12 (C12_scan_lossless / _levels / _total) and the rule is restated scanner-free in Spec.tokenCaseBibtex (C04_case_bibtex_partial / _neg)']
 ASSUMPTIONS = ['/repo carries the proposed repairs C04-1 (is_von_name: an over-nested token has no case instead of raising "too many nested '
                'braces") and C04-2 (special_char_islower knows BibTeX\'s thirteen built-in foreign characters); on a tree without them the '
                'check reports the two defects as violations with failing inputs',
@@ -512,4 +517,9 @@ LEVEL_NOTE = ('Trusted: Lean kernel; axioms propext/Classical.choice/Quot.sound 
               'stripped non-empty argument (find_pos after repair #3). A token nested deeper than 100 levels that does not start with a cased '
               'character is caseless in the rule (pybtex\'s scanner limit; BibTeX has none). Spec.nameTokens / nameCommaParts (the tokeniser '
               'stated from the property text) are compared with the code on every case with closed groups but not proved equal to splitTex; '
-              'concrete witnesses are checked by kernel evaluation (decide +kernel).')
+              'concrete witnesses are checked by kernel evaluation (decide +kernel). RELATIVE NOTIONS: "token" in every theorem is a token of the shared model '
+              'tokeniser splitTex and "brace level 0" / "special character" in Spec.tokenCase are those of the shared scanner scan (both C12 models); C04_matches_spec and '
+              'C04_case_of_token are therefore proved modulo these two, which C12 characterises separately. The scanner-free restatement of bibtex.web\'s case rule '
+              '(Spec.tokenCaseBibtex) agrees with is_von_name except (a) beyond 100 nesting levels (C04_overnested_case) and (b) when a backslash stands at brace level 1 '
+              'inside an ordinary group before the case is decided: {x\\y}von is a von token for bibtex.web and caseless for pybtex (C04_case_bibtex_neg) - a deviation '
+              'from "as BibTeX does" that the rule Spec.tokenCase, following the scanner, does not show. C04_groups_never_split needs balanced braces.')
